@@ -4,6 +4,7 @@ go 1.23.0
 
 require (
 	github.com/cossacklabs/acra v0.0.0
+	github.com/cossacklabs/pg_query_go/v5 v5.1.0
 	github.com/cossacklabs/themis/gothemis v0.14.0
 	github.com/sirupsen/logrus v1.6.0
 )
@@ -13,7 +14,6 @@ require (
 	github.com/armon/go-metrics v0.4.0 // indirect
 	github.com/beorn7/perks v1.0.1 // indirect
 	github.com/cespare/xxhash/v2 v2.2.0 // indirect
-	github.com/cossacklabs/pg_query_go/v5 v5.1.0 // indirect
 	github.com/fatih/color v1.16.0 // indirect
 	github.com/gabriel-vasile/mimetype v1.4.2 // indirect
 	github.com/gin-contrib/sse v0.1.0 // indirect
